@@ -1,6 +1,9 @@
 import Cfdm.Driver.Parse
 import Cfdm.Driver.C03
 import Cfdm.Model.Ragged
+import Cfdm.Model.RaggedND
+import Cfdm.Model.RaggedState
+import Cfdm.Model.RaggedNc
 /-
 Line-protocol driver for C06.
 
@@ -8,7 +11,10 @@ Line-protocol driver for C06.
   C06.ri  index=[..] shape=[nrows,ncols] trail=[..] c=[..] ix=[..]?
   C06.ric count=[..] index=[..] shape=[ninst,maxProf,nelem] trail=[..] c=[..] ix=[..]?
   C06.ga  list=[..] lead=[..] dims=[..] trail=[..] c=[..] ix=[..]?
-  C06.cmp method=contiguous|indexed|indexed_contiguous shape=[..] a=[..]
+  C06.cmp method=contiguous|indexed|indexed_contiguous shape=[..] a=[..] aux=[..]|[..]? p2=[..]?
+  C06.rd  kind=rc|ri|ric|ga …  (the shape is derived as the reader derives it; ri/ric need ninst=)
+  C06.st  kind=rc|ri|ric|ga … prog=<op>|<op>|…   (history of Data operations, see `runState`)
+  C06.enc kind=… (writer encoding + reader, see `runEnc`)
 
 `c` is the compressed array in row-major order (`--` = masked), of shape
 `[N] ++ trail` (ragged) or `lead ++ [N] ++ trail` (gathered).  Output:
@@ -38,54 +44,79 @@ def toSlabs (t : Nat) (c : List (M Int)) : List (M (List (M Int))) :=
 def flattenSlabs (t : Nat) (l : List (M (List (M Int)))) : List (M Int) :=
   l.flatMap (fun s => match s with | some slab => slab | none => List.replicate t none)
 
+/-- A flat row-major list as an array. -/
+def arrOfFlat (shape : List Nat) (flat : List (M Int)) : Arr (M Int) :=
+  let arr : Array (M Int) := flat.toArray
+  { shape := shape, get := fun idx => arr.getD (Arr.ravel shape idx) none }
+
+def showArr (shape : List Nat) (flat : List (M Int)) : String :=
+  s!"shape={showNatList shape} data={showOptIntList flat}"
+
+/-- Positions selected by a C03 index expression on an array of the given shape. -/
+def parsePositions (shape : List Nat) (ixs : String) : Except String (List (List Nat)) :=
+  match C03.parseRaws ixs with
+  | none => .error "bad-op"
+  | some raw =>
+    match Cfdm.Indexing.parseIndices shape raw with
+    | .error e => .error ("raised:" ++ e)
+    | .ok sels =>
+      if !C03.selsWf shape sels then .error "rejected" else .ok (C03.positionsNat shape sels)
+
 /-- Apply an optional C03 index expression to the flat uncompressed array. -/
 def finish (shape : List Nat) (flat : List (M Int)) (kv : KV) : String :=
   match kv.get? "ix" with
-  | none => s!"shape={showNatList shape} data={showOptIntList flat}"
+  | none => showArr shape flat
   | some ixs =>
-    match C03.parseRaws ixs with
-    | none => "bad-op"
-    | some raw =>
-      match Cfdm.Indexing.parseIndices shape raw with
-      | .error e => "raised:" ++ e
-      | .ok sels =>
-        if !C03.selsWf shape sels then "rejected" else
-        let ps := C03.positionsNat shape sels
-        let arr : Array (M Int) := flat.toArray
-        let A : Arr (M Int) := { shape := shape, get := fun idx => arr.getD (Arr.ravel shape idx) none }
-        let B := seqTake A ps (List.range shape.length)
-        s!"shape={showNatList B.shape} data={showOptIntList (toList B)}"
+    match parsePositions shape ixs with
+    | .error e => e
+    | .ok ps =>
+      let B := seqTake (arrOfFlat shape flat) ps (List.range shape.length)
+      showArr B.shape (toList B)
 
-def runRagged (kind : String) (kv : KV) : String :=
+/-- The uncompressed array (shape, row-major values) of a ragged source.
+`reader = true`: the shape is derived from the count / index variables as `cfdm.read` does
+(`ninst` = size of the instance dimension). -/
+def decodeRagged (kind : String) (reader : Bool) (kv : KV) : Except String (List Nat × List (M Int)) :=
   match (do
-    let shape ← parseNatList (← kv.get? "shape")
+    let shape ← if reader then some [] else parseNatList (← kv.get? "shape")
+    let ninst ← if reader && kind != "rc" then (← kv.get? "ninst").toNat? else some 0
     let trail ← parseNatList (← kv.get? "trail")
     let c ← parseMIntList (← kv.get? "c")
     let count ← if kind == "ri" then some [] else parseNatList (← kv.get? "count")
     let index ← if kind == "rc" then some [] else parseNatList (← kv.get? "index")
-    some (shape, trail, c, count, index)) with
-  | none => "bad-op"
-  | some (shape, trail, c, count, index) =>
+    some (shape, ninst, trail, c, count, index)) with
+  | none => .error "bad-op"
+  | some (shape, ninst, trail, c, count, index) =>
     let t := prodN trail
-    if t = 0 || c.length % t != 0 then "bad-op" else
+    if t = 0 || c.length % t != 0 then .error "bad-op" else
     let samples := toSlabs t c
+    if reader then
+      match kind with
+      | "rc" => .ok ([count.length, maxL count] ++ trail, flattenSlabs t (readContiguous count samples).flatten)
+      | "ri" => .ok ([ninst, maxOcc index] ++ trail, flattenSlabs t (readIndexed ninst index samples).flatten)
+      | "ric" =>
+        if index.length != count.length then .error "rejected" else
+        .ok ([ninst, maxOcc index, maxL count] ++ trail,
+             flattenSlabs t (readIndexedContiguous ninst count index samples).flatten)
+      | _ => .error "bad-op"
+    else
     match kind, shape with
     | "rc", [nrows, ncols] =>
-      if !count.all (· ≤ ncols) then "rejected" else
-      let rows := decodeContiguous count nrows ncols samples
-      finish (shape ++ trail) (flattenSlabs t rows.flatten) kv
+      if !count.all (· ≤ ncols) then .error "rejected" else
+      .ok (shape ++ trail, flattenSlabs t (decodeContiguous count nrows ncols samples).flatten)
     | "ri", [nrows, ncols] =>
-      if !(List.range nrows).all (fun i => index.count i ≤ ncols) then "rejected" else
-      let rows := decodeIndexed index nrows ncols samples
-      finish (shape ++ trail) (flattenSlabs t rows.flatten) kv
+      if !(List.range nrows).all (fun i => index.count i ≤ ncols) then .error "rejected" else
+      .ok (shape ++ trail, flattenSlabs t (decodeIndexed index nrows ncols samples).flatten)
     | "ric", [ninst, maxProf, nelem] =>
       if !count.all (· ≤ nelem) || !(List.range ninst).all (fun i => index.count i ≤ maxProf)
-          || index.length > count.length then "rejected" else
-      let rows := decodeIndexedContiguous count index ninst maxProf nelem samples
-      finish (shape ++ trail) (flattenSlabs t rows.flatten) kv
-    | _, _ => "bad-op"
+          || index.length > count.length then .error "rejected" else
+      .ok (shape ++ trail,
+           flattenSlabs t (decodeIndexedContiguous count index ninst maxProf nelem samples).flatten)
+    | _, _ => .error "bad-op"
 
-def runGathered (kv : KV) : String :=
+/-- The uncompressed array of a gathered source: the N-d model (`decodeGatheredND`) on the
+compressed array of shape `lead ++ [n] ++ trail`. -/
+def decodeGa (kv : KV) : Except String (List Nat × List (M Int)) :=
   match (do
     let l ← parseNatList (← kv.get? "list")
     let lead ← parseNatList (← kv.get? "lead")
@@ -93,53 +124,302 @@ def runGathered (kv : KV) : String :=
     let trail ← parseNatList (← kv.get? "trail")
     let c ← parseMIntList (← kv.get? "c")
     some (l, lead, dims, trail, c)) with
-  | none => "bad-op"
+  | none => .error "bad-op"
   | some (l, lead, dims, trail, c) =>
-    let t := prodN trail
-    let nl := prodN lead
     let n := l.length
-    if t = 0 || dims.isEmpty || c.length != nl * n * t then "bad-op" else
-    if !l.all (· < Ragged.prod dims) then "rejected" else
-    let blocks := if n * t = 0 then List.replicate nl [] else chunks (n * t) c
-    let flat := blocks.flatMap (fun blk =>
-      let u := decodeGathered dims l (toSlabs t blk)
-      flattenSlabs t ((allIdx dims).map u))
-    finish (lead ++ dims ++ trail) flat kv
+    let cshape := lead ++ [n] ++ trail
+    if dims.isEmpty || c.length != prodN cshape then .error "bad-op" else
+    if !l.all (· < Ragged.prod dims) then .error "rejected" else
+    let data := (arrOfFlat cshape c).get
+    let shape := lead ++ dims ++ trail
+    let u := decodeGatheredND lead.length dims l data
+    .ok (shape, (allIdx shape).map u)
+
+def decodeSrc (kind : String) (reader : Bool) (kv : KV) : Except String (List Nat × List (M Int)) :=
+  if kind == "ga" then decodeGa kv else decodeRagged kind reader kv
+
+def runDecode (kind : String) (kv : KV) : String :=
+  match decodeSrc kind false kv with
+  | .error e => e
+  | .ok (shape, flat) => finish shape flat kv
+
+def runRead (kv : KV) : String :=
+  match kv.get? "kind" with
+  | none => "bad-op"
+  | some kind =>
+    if !["rc", "ri", "ric", "ga"].contains kind then "bad-op" else
+    match decodeSrc kind true kv with
+    | .error e => e
+    | .ok (shape, flat) => showArr shape flat
+
+/-! ### Field.compress -/
+
+def parseArrays (s : String) : Option (List (List (M Int))) :=
+  if s.isEmpty then some [] else (s.splitOn "|").mapM parseMIntList
 
 def runCompress (kv : KV) : String :=
   match (do
     let shape ← parseNatList (← kv.get? "shape")
     let a ← parseMIntList (← kv.get? "a")
     let m ← kv.get? "method"
-    some (shape, a, m)) with
+    let aux ← match kv.get? "aux" with | none => some [] | some s => parseArrays s
+    let p2 ← match kv.get? "p2" with | none => some none | some s => (parseMIntList s).map some
+    some (shape, a, m, aux, p2)) with
   | none => "bad-op"
-  | some (shape, a, m) =>
-    if a.length != prodN shape then "bad-op" else
+  | some (shape, a, m, aux, p2) =>
+    if a.length != prodN shape || aux.any (fun x => x.length != prodN shape) then "bad-op" else
+    let join (parts : List String) := String.intercalate " ; " parts
     match m, shape with
     | "contiguous", [nrows, ncols] =>
       if ncols = 0 then "bad-op" else
-      let rows := chunks ncols a
-      let z := compressContiguous rows
-      finish shape (decodeContiguous z.count nrows ncols z.c).flatten kv
+      let arrays := (a :: aux).map (chunks ncols)
+      let cnt := jointCount arrays
+      join (arrays.map (fun rows =>
+        let z := compressContiguousWith cnt rows
+        showArr shape (decodeContiguous z.count nrows ncols z.c).flatten))
     | "indexed", [nrows, ncols] =>
       if ncols = 0 then "bad-op" else
-      let rows := chunks ncols a
-      let z := compressIndexed rows
-      finish shape (decodeIndexed z.index nrows ncols z.c).flatten kv
+      let arrays := (a :: aux).map (chunks ncols)
+      let cnt := jointCount arrays
+      join (arrays.map (fun rows =>
+        let z := compressIndexedWith cnt rows
+        showArr shape (decodeIndexed z.index nrows ncols z.c).flatten))
     | "indexed_contiguous", [ninst, maxProf, nelem] =>
       if nelem = 0 || maxProf = 0 then "bad-op" else
-      let insts := chunks maxProf (chunks nelem a)
-      let z := compressIndexedContiguous insts
-      finish shape (decodeIndexedContiguous z.count z.index ninst maxProf nelem z.c).flatten kv
+      let arrays := (a :: aux).map (fun x => chunks maxProf (chunks nelem x))
+      let cnts := jointCountIC arrays
+      let main := arrays.map (fun insts =>
+        let z := compressIndexedContiguousWith cnts insts
+        showArr shape (decodeIndexedContiguous z.count z.index ninst maxProf nelem z.c).flatten)
+      match p2 with
+      | none => join main
+      | some p =>
+        if p.length != ninst * maxProf then "bad-op" else
+        let z := compressProfileMeta cnts (chunks maxProf p)
+        join (main ++ [showArr [ninst, maxProf] (decodeIndexed z.index ninst maxProf z.c).flatten])
     | _, _ => "bad-op"
+
+/-! ### histories of Data operations -/
+open Cfdm.RaggedState
+
+abbrev Obj := Repr (Arr (M Int)) (Arr (M Int))
+
+def np : NpOps (Arr (M Int)) (List (List Nat)) (M Int) := arrOps
+
+/-- Materialise (keeps the closures shallow). -/
+def norm (A : Arr (M Int)) : Arr (M Int) := arrOfFlat A.shape (toList A)
+
+def normObj : Obj → Obj
+  | .comp c => .comp c
+  | .plain a => .plain (norm a)
+
+def parseAxes (s : String) : Option (Option (List Nat)) :=
+  if s == "_" then some none
+  else if s.isEmpty then some (some [])
+  else ((s.splitOn ",").mapM String.toNat?).map some
+
+def parseFlag (s : String) : Option Bool :=
+  if s == "1" then some true else if s == "0" then some false else none
+
+def flags (heap : List Obj) : String :=
+  String.join (heap.map (fun o => if isComp o then "c" else "p"))
+
+def isPerm (axes : List Nat) (n : Nat) : Bool :=
+  axes.length == n && (List.range n).all (fun k => axes.contains k)
+
+/-- One operation of a history: parse it against the current heap, apply `RaggedState.step`,
+return the new heap and what the operation showed.
+  A/i  G/i/<ix>  C/i  S/i/<ix>/<v>  T/i/<axes|_>/<inplace>  Q/i/<axes|_>/<inplace>
+  D/i/<pos>/<inplace>  M/i/<inplace>  U/i/<inplace>  E/i/j  W/i -/
+def stateStep (heap : List Obj) (tok : String) : Option (List Obj × String) :=
+  let dec : Arr (M Int) → Arr (M Int) := id
+  let shapeOf (i : Nat) : Option (List Nat) := (heap[i]?).map (fun o => (view dec o).shape)
+  let apply (op : Op (List (List Nat)) (M Int)) : Option (List Obj × String) :=
+    let (h, o) := step np dec heap op
+    let h := h.map normObj
+    match o with
+    | .bad => none
+    | .none => some (h, "ok")
+    | .arr a => some (h, showArr a.shape (toList a))
+    | .bool b => some (h, if b then "True" else "False")
+    | .written b => some (h, if b then "written:compressed" else "written:plain")
+  match tok.splitOn "/" with
+  | ["A", i] => do apply (.array (← i.toNat?))
+  | ["C", i] => do apply (.copy (← i.toNat?))
+  | ["W", i] => do apply (.write (← i.toNat?))
+  | ["E", i, j] => do apply (.equals (← i.toNat?) (← j.toNat?))
+  | ["M", i, b] => do apply (.toMemory (← i.toNat?) (← parseFlag b))
+  | ["U", i, b] => do apply (.uncompress (← i.toNat?) (← parseFlag b))
+  | ["G", i, ix] => do
+    let i ← i.toNat?
+    match parsePositions (← shapeOf i) ix with
+    | .error e => if e == "bad-op" then none else some (heap, e)
+    | .ok ps => apply (.getitem i ps)
+  | ["S", i, ix, v] => do
+    let i ← i.toNat?
+    let v ← parseMInt v
+    match parsePositions (← shapeOf i) ix with
+    | .error e => if e == "bad-op" then none else some (heap, e)
+    | .ok ps => apply (.setitem i ps v)
+  | ["T", i, axes, b] => do
+    let i ← i.toNat?
+    let axes ← parseAxes axes
+    let sh ← shapeOf i
+    match axes with
+    | some ax => if !isPerm ax sh.length then some (heap, "raised:ValueError") else apply (.transpose i axes (← parseFlag b))
+    | none => apply (.transpose i axes (← parseFlag b))
+  | ["Q", i, axes, b] => do
+    let i ← i.toNat?
+    let axes ← parseAxes axes
+    let sh ← shapeOf i
+    match axes with
+    | some ax =>
+      if !ax.all (fun k => k < sh.length && sh.getD k 0 = 1) then some (heap, "raised:ValueError")
+      else apply (.squeeze i (some ax.eraseDups) (← parseFlag b))
+    | none => apply (.squeeze i none (← parseFlag b))
+  | ["D", i, pos, b] => do
+    let i ← i.toNat?
+    let pos ← pos.toNat?
+    let sh ← shapeOf i
+    if pos > sh.length then some (heap, "raised:ValueError") else apply (.insertDim i pos (← parseFlag b))
+  | _ => none
+
+def runState (kv : KV) : String :=
+  match (do
+    let kind ← kv.get? "kind"
+    let prog ← kv.get? "prog"
+    some (kind, prog)) with
+  | none => "bad-op"
+  | some (kind, prog) =>
+    if !["rc", "ri", "ric", "ga"].contains kind then "bad-op" else
+    match decodeSrc kind false kv with
+    | .error e => e
+    | .ok (shape, flat) =>
+      let init : List Obj := [.comp (arrOfFlat shape flat)]
+      let toks := if prog.isEmpty then [] else prog.splitOn "|"
+      let rec go (heap : List Obj) (toks : List String) (acc : List String) : Option (List Obj × List String) :=
+        match toks with
+        | [] => some (heap, acc.reverse)
+        | t :: ts =>
+          match stateStep heap t with
+          | none => none
+          | some (h, o) => go h ts ((o ++ " " ++ flags h) :: acc)
+      match go init toks [] with
+      | none => "bad-op"
+      | some (heap, obs) =>
+        let final := heap.map (fun o =>
+          let a := view (id : Arr (M Int) → Arr (M Int)) o
+          (if isComp o then "c:" else "p:") ++ showArr a.shape (toList a))
+        "obs=" ++ String.intercalate " | " obs ++ " final=" ++ String.intercalate " | " final
+
+/-! ### the netCDF encoding -/
+open Cfdm.RaggedNc
+
+def parseNamed (s : String) : Option (List (String × Nat)) :=
+  if s.isEmpty then some [] else
+  (s.splitOn ",").mapM (fun t => match t.splitOn ":" with
+    | [n, k] => k.toNat?.map (fun k => (n, k))
+    | _ => none)
+
+def parseSpan (s : String) : Option Span :=
+  match s with
+  | "data" => some .data
+  | "profile" => some .profile
+  | "instance" => some .instance
+  | _ => none
+
+/-- `name:span:compressed:[values]` separated by `;`. -/
+def parseConstructs (s : String) : Option (List (Construct Int)) :=
+  if s.isEmpty then some [] else
+  (s.splitOn ";").mapM (fun t => match t.splitOn ":" with
+    | [n, sp, cp, vals] => do
+      some { name := n, span := ← parseSpan sp, compressed := ← parseFlag cp, samples := ← parseMIntList vals }
+    | _ => none)
+
+def showAttr (k : String) (v : Option String) : String :=
+  match v with | none => "" | some x => k ++ "=" ++ x ++ ","
+
+def insertSorted (x : String) : List String → List String
+  | [] => [x]
+  | y :: ys => if x < y then x :: y :: ys else y :: insertSorted x ys
+
+def sortStrings (l : List String) : List String := l.foldr insertSorted []
+
+/-- A dataset in canonical text: dimensions and variables sorted by name; the values of an N-d
+variable are listed in row-major order over the sizes of its dimensions. -/
+def showDs (ds : NcDs Int) : String :=
+  let dims := sortStrings (ds.dims.map (fun d => d.1 ++ ":" ++ toString d.2))
+  let vars := sortStrings (ds.vars.map (fun v =>
+    let vals := match v.payload with
+      | .ints l => showNatList l
+      | .samples l => showOptIntList l
+      | .nd get => showOptIntList ((allIdx (v.dims.map (dimSize ds))).map get)
+    v.name ++ "(" ++ String.intercalate "," v.dims ++ "){"
+      ++ showAttr "sample_dimension" v.sampleDimension ++ showAttr "instance_dimension" v.instanceDimension
+      ++ showAttr "compress" (v.compress.map (String.intercalate " ")) ++ "}=" ++ vals))
+  "featureType=" ++ (if ds.featureType then "1" else "0") ++ " dims=" ++ String.intercalate "," dims
+    ++ " vars=" ++ String.intercalate ";" vars
+
+def showRead (ds : NcDs Int) (names : List String) : String :=
+  String.intercalate ";" (names.map (fun n =>
+    match readVar ds n with
+    | none => n ++ ":none"
+    | some a => n ++ ":" ++ showArr a.shape ((allIdx a.shape).map a.get)))
+
+def runEnc (kv : KV) : String :=
+  match kv.get? "kind" with
+  | none => "bad-op"
+  | some "ga" =>
+    match (do
+      let lead ← parseNamed (← kv.get? "lead")
+      let dims ← parseNamed (← kv.get? "dims")
+      let trail ← parseNamed (← kv.get? "trail")
+      let l ← parseNatList (← kv.get? "list")
+      let lv ← kv.get? "listvar"
+      let cons ← ((← kv.get? "cons").splitOn ";").mapM (fun (t : String) => match t.splitOn ":" with
+        | [n, vals] => (parseMIntList vals).map (fun v => ((n, v) : String × List (M Int)))
+        | _ => none)
+      some (lead, dims, trail, l, lv, cons)) with
+    | none => "bad-op"
+    | some (lead, dims, trail, l, lv, cons) =>
+      let cshape := lead.map Prod.snd ++ [l.length] ++ trail.map Prod.snd
+      if cons.any (fun c => c.2.length != prodN cshape) || dims.isEmpty then "bad-op" else
+      if !l.all (· < Ragged.prod (dims.map Prod.snd)) then "rejected" else
+      let g : GatheredField Int :=
+        { lead := lead, dims := dims, trail := trail, listVar := lv, list := l,
+          constructs := cons.map (fun c => (c.1, (arrOfFlat cshape c.2).get)) }
+      let ds := encodeGathered g
+      "file=" ++ showDs ds ++ " read=" ++ showRead ds (cons.map Prod.fst)
+  | some k =>
+    match (do
+      let kind ← match k with
+        | "rc" => some Kind.contiguous | "ri" => some Kind.indexed | "ric" => some Kind.indexedContiguous
+        | _ => none
+      let ft ← parseFlag (← kv.get? "ft")
+      let ninst ← (← kv.get? "ninst").toNat?
+      let count ← parseNatList (← kv.get? "count")
+      let index ← parseNatList (← kv.get? "index")
+      let cons ← parseConstructs (← kv.get? "cons")
+      some ({ kind := kind, featureType := ft, instDim := ← kv.get? "inst", ninst := ninst,
+              sampleDim := ← kv.get? "sample", profileDim := ← kv.get? "profile",
+              countVar := ← kv.get? "countvar", indexVar := ← kv.get? "indexvar",
+              count := count, index := index, constructs := cons } : RaggedField Int)) with
+    | none => "bad-op"
+    | some f =>
+      match encodeRagged f with
+      | none => "write-fails"
+      | some ds => "file=" ++ showDs ds ++ " read=" ++ showRead ds (f.constructs.map (·.name))
 
 def run (sub : String) (kv : KV) : String :=
   match sub with
-  | "rc" => runRagged "rc" kv
-  | "ri" => runRagged "ri" kv
-  | "ric" => runRagged "ric" kv
-  | "ga" => runGathered kv
+  | "rc" => runDecode "rc" kv
+  | "ri" => runDecode "ri" kv
+  | "ric" => runDecode "ric" kv
+  | "ga" => runDecode "ga" kv
   | "cmp" => runCompress kv
+  | "rd" => runRead kv
+  | "st" => runState kv
+  | "enc" => runEnc kv
   | _ => "bad-op"
 
 end Cfdm.Driver.C06
